@@ -1,4 +1,5 @@
 #![allow(dead_code)]
+mod adoc;
 mod adversarial;
 mod aschema;
 mod astwalk;
@@ -52,6 +53,7 @@ fn main() {
         "digest" => digest::run(rest),
         "exec-replay" => exec::replay(rest),
         "schema-cases" => aschema::cases(rest),
+        "doc-cases" => adoc::cases(rest),
         "async-replay" => asyncx::replay(rest),
         "exec-record" => exec::record(rest),
         "coerce-replay" => coerce::replay(rest),
